@@ -120,52 +120,79 @@ Definition pc_panic (o : list obs) : string :=
                    | _ => ""%string
                    end) o).
 
-Definition retry_fold (cfg : config) (post : dump) (e : event) (o : list obs) (m0 m3 : mon) : mon * string :=
-  let syncs_before := m_syncs (mon_event e m0) in
-    fold_left (fun (acc : mon * string) x =>
-      let '(m, err) := acc in
-      match x with
-      | OSync c (DExec _ _ _ _ _) _ =>
-        match find (fun '(c', _) => Nat.eqb c c') syncs_before with
-        | Some (_, w) =>
-          match find_dworker post (w_sk w) (wid w) with
-          | Some k =>
-            match dw_task k with
-            | Some ops =>
-              let prev := aget wref_eqb w (m_reissue m) in
-              let n := match prev with
-                       | Some (ops0, n0) => if shares_op ops0 ops then S n0 else O
-                       | None => O
-                       end in
-              (m <| m_reissue := aset wref_eqb w (ops, n) (m_reissue m) |>,
-               if String.eqb err "" && Nat.ltb (cf_retry_count cfg) n then "C06:task-reissued-beyond-retry-limit"%string else err)
-            | None => acc
-            end
-          | None => acc
-          end
-        | None => acc
+(* a re-request: the worker of a Synchronize event holds a task (pre dump) and does not report it *)
+Definition rereq (pre : dump) (e : event) (m : mon) : option (wref * list nat * nat) :=
+    match e with
+    | EStartSync _ a _ =>
+      let w := y_worker a in
+      match find_dworker pre (w_sk w) (wid w) with
+      | Some k =>
+        match dw_task k with
+        | Some ops =>
+          let names_task (d : N) := existsb (fun o => existsb (Nat.eqb (do_name o)) ops && (do_digest o =? d)%N) (d_ops pre) in
+          let correct := match y_state a with
+                         | WExecuting d => names_task d
+                         | WCompleted d _ => names_task d
+                         | WIdle => false
+                         | WNoState => true
+                         end in
+          if correct then None
+          else Some (w, ops, match aget wref_eqb w (m_reissue m) with
+                             | Some (ops0, n0) => if shares_op ops0 ops then n0 else O
+                             | None => O
+                             end)
+        | None => None
         end
-      | _ => acc
-      end) o (m3, ""%string).
-
-Definition pc_early (cfg : config) (pre post : dump) (m0 : mon) : string :=
-  first_nonempty (map (fun o =>
-                  match do_resp o, find_dop pre (do_name o) with
+      | None => None
+      end
+    | _ => None
+    end.
+Definition retry_step (cfg : config) (post : dump) (e : event) (o : list obs) (rr : option (wref * list nat * nat)) (m : mon) : mon * string :=
+    match rr, e with
+    | Some (w, ops, n), EStartSync c _ _ =>
+      let told := existsb (fun x => match x with OSync c' (DExec _ _ _ _ _) _ => Nat.eqb c c' | _ => false end) o in
+      match find_dworker post (w_sk w) (wid w) with
+      | Some k =>
+        match dw_task k with
+        | Some ops' =>
+          if told && shares_op ops ops'
+          then (m <| m_reissue := aset wref_eqb w (ops', S n) (m_reissue m) |>,
+                if Nat.leb (cf_retry_count cfg) n then "C06:task-reissued-beyond-retry-limit"%string else ""%string)
+          else (m, ""%string)
+        | None => (m, ""%string)
+        end
+      | None => (m, ""%string)
+      end
+    | _, _ => (m, ""%string)
+    end.
+Definition pc_early (cfg : config) (pre post : dump) (rr : option (wref * list nat * nat)) : string :=
+  first_nonempty (map (fun o1 =>
+                  match do_resp o1, find_dop pre (do_name o1) with
                   | Some r, Some o0 =>
-                    match do_resp o0, do_worker o0 with
-                    | None, Some wk =>
+                    match do_resp o0 with
+                    | None =>
                       if scheduler_made r && (r_code r =? cINTERNAL)%N then
-                        match aget wref_eqb (mkW (do_sk o0) (fst wk) (snd wk)) (m_reissue m0) with
-                        | Some (ops0, n0) =>
-                          if shares_op ops0 (do_taskops o0) && negb (Nat.eqb n0 (cf_retry_count cfg))
-                          then "C06:task-failed-before-retry-limit"%string else ""%string
-                        | None => ""%string
+                        match rr with
+                        | Some (_, ops, n) =>
+                          if existsb (Nat.eqb (do_name o1)) ops && Nat.eqb n (cf_retry_count cfg) then ""%string
+                          else "C06:task-failed-before-retry-limit"%string
+                        | None => "C06:task-failed-before-retry-limit"%string
                         end
                       else ""%string
-                    | _, _ => ""%string
+                    | Some _ => ""%string
                     end
                   | _, _ => ""%string
                   end) (d_ops post)).
+(* the TerminateWorkers calls that have not returned, with what each still waits for *)
+Definition pm_terms (post : dump) (e : event) (m : mon) : mon :=
+  let m := match e with
+           | EStartTerminate c pat _ => m <| m_terms ::= cons (c, term_waits pat post) |>
+           | _ => m
+           end in
+  m <| m_terms := map (fun '(c, ws) => (c, map (term_track post) ws))
+                      (filter (fun '(c, _) => existsb (Nat.eqb c) (m_live m)) (m_terms m)) |>.
+Definition pc_term (post : dump) (mf : mon) : string :=
+  first_nonempty (map (fun '(c, ws) => if forallb (term_over post) ws then "C06:terminate-workers-not-woken"%string else ""%string) (m_terms mf)).
 
 Definition pc_exec (cfg : config) (t0 : Z) (pre post : dump) (e : event) (o : list obs) : string :=
   match e with
@@ -174,45 +201,41 @@ Definition pc_exec (cfg : config) (t0 : Z) (pre post : dump) (e : event) (o : li
   end.
 
 (* the monitor state after the event, and the list of components in the order [p_step] reports them *)
-(* an accepted completion report ends the assignment the retry counter was about *)
-Definition pm_clear (pre : dump) (e : event) (m : mon) : mon :=
-  match e with
-  | EStartSync _ a _ =>
-    match y_state a, find_dworker pre (w_sk (y_worker a)) (wid (y_worker a)) with
-    | WCompleted d _, Some k =>
-      match dw_task k with
-      | Some ops0 =>
-        if existsb (fun o => existsb (Nat.eqb (do_name o)) ops0 && (do_digest o =? d)%N) (d_ops pre)
-        then m <| m_reissue := adel wref_eqb (y_worker a) (m_reissue m) |> else m
-      | None => m
-      end
-    | _, _ => m
-    end
-  | _ => m
-  end.
-Lemma pm_clear_eq : forall pre e m, pm_clear pre e m = m <| m_reissue := m_reissue (pm_clear pre e m) |>.
-Proof.
-  intros pre e m. unfold pm_clear. destruct e; try (destruct m; reflexivity).
-  destruct (y_state a); try (destruct m; reflexivity). destruct (find_dworker _ _ _) as [k|]; [|destruct m; reflexivity].
-  destruct (dw_task k); [|destruct m; reflexivity]. destruct (existsb _ _); destruct m; reflexivity.
-Qed.
 Definition pm_final (cfg : config) (pre post : dump) (e : event) (o : list obs) (m : mon) : mon :=
-  fst (retry_fold cfg post e o m (pm_clear pre e (pm3 post e o m))).
+  let m3 := pm3 post e o m in
+  pm_terms post e (fst (retry_step cfg post e o (rereq pre e m3) m3)).
 Definition p_components (cfg : config) (t0 : Z) (m : mon) (pre : dump) (e : event) (o : list obs) (post : dump) : list string :=
   let m3 := pm3 post e o m in
   let mf := pm_final cfg pre post e o m in
   [pc_panic o; c01_dump post; pc_sync post e o m3; pc_stream post e o m; pc_lost cfg pre post m; pc_cancel pre post e m;
    c03_dump post; c03_waited post; c04_dump post; pc_exec cfg t0 pre post e o; c05_assign pre post;
-   c06_dump mf post; c06_final mf post; pc_arm cfg pre post e o m m3; snd (retry_fold cfg post e o m (pm_clear pre e m3)); pc_early cfg pre post m;
-   pc_learn e o m; c07_background post; c07_learners_match mf post; pc_gone post e o m].
+   c06_dump mf post; c06_final mf post; pc_arm cfg pre post e o m m3; snd (retry_step cfg post e o (rereq pre e m3) m3); pc_early cfg pre post (rereq pre e m3);
+   pc_learn e o m; c07_background post; c07_learners_match mf post; pc_gone post e o m; pc_term post mf].
 
 Lemma p_step_components : forall cfg t0 m pre e o post,
   p_step cfg t0 m pre e o post = (pm_final cfg pre post e o m, first_nonempty (p_components cfg t0 m pre e o post)).
 Proof.
-  intros cfg t0 m pre e o post. unfold p_step, p_components, pm_final, pc_learn, pc_stream, pc_gone, pm3, pm2, retry_fold. cbv zeta.
+  intros cfg t0 m pre e o post. unfold p_step, p_components, pm_final, pc_learn, pc_stream, pc_gone, pc_term, pm3, pm2. cbv zeta.
   fold (pm1 e o m).
   destruct (fold_left c07_ghost o (m_learners (pm1 e o m), ""%string)) as [ls el] eqn:E1. cbn [fst snd].
   destruct (fold_left (c02_obs post) o (pm1 e o m <| m_learners := ls |>, ""%string)) as [m3 es] eqn:E2. cbn [fst snd].
-  fold (pm_clear pre e m3).
-  match goal with |- context [fold_left ?g o (pm_clear pre e m3, ?z)] => destruct (fold_left g o (pm_clear pre e m3, z)) as [m4 er] eqn:E3 end. cbn [fst snd]. reflexivity.
+  fold (rereq pre e m3). fold (retry_step cfg post e o (rereq pre e m3) m3).
+  destruct (retry_step cfg post e o (rereq pre e m3) m3) as [m4 er] eqn:E3. cbn [fst snd].
+  fold (pm_terms post e m4). reflexivity.
+Qed.
+
+(* the last steps only touch m_reissue and m_terms *)
+Lemma retry_step_eq : forall cfg post e o rr m, fst (retry_step cfg post e o rr m) = m <| m_reissue := m_reissue (fst (retry_step cfg post e o rr m)) |>.
+Proof.
+  intros cfg post e o rr m. unfold retry_step. destruct rr as [[[w ops] n]|]; [|destruct m; reflexivity]. destruct e; try (destruct m; reflexivity).
+  destruct (find_dworker _ _ _) as [k|]; [|destruct m; reflexivity]. destruct (dw_task k); [|destruct m; reflexivity]. destruct (_ && _); destruct m; reflexivity.
+Qed.
+Lemma pm_terms_eq : forall post e m, pm_terms post e m = m <| m_terms := m_terms (pm_terms post e m) |>.
+Proof. intros post e m. unfold pm_terms. destruct e; destruct m; reflexivity. Qed.
+Lemma pm_final_frame : forall cfg pre post e o m,
+  let m3 := pm3 post e o m in let mf := pm_final cfg pre post e o m in
+  m_streams mf = m_streams m3 /\ m_syncs mf = m_syncs m3 /\ m_supplied mf = m_supplied m3 /\ m_learners mf = m_learners m3 /\
+  m_live mf = m_live m3 /\ m_lastsync mf = m_lastsync m3.
+Proof.
+  intros cfg pre post e o m m3 mf. unfold mf, pm_final. cbv zeta. rewrite pm_terms_eq, retry_step_eq. cbn. repeat split; reflexivity.
 Qed.
